@@ -54,6 +54,8 @@ type Op struct {
 	// U: useUnconfirmed; V2: v2 flavour of fund / pay
 	U  bool `json:"u,omitempty"`
 	V2 bool `json:"v2,omitempty"`
+	// Now: (fund) sign and submit the request right away
+	Now bool `json:"now,omitempty"`
 	// Lag: (mine, reorg) the wallet is not fed the new blocks; it stays at its
 	// own tip until a later non-lagging chain op or a "sync" op
 	Lag bool `json:"lag,omitempty"`
@@ -140,6 +142,8 @@ func genOp(t *rapid.T, cfg C07Config) Op {
 		op.V2 = v2Likely
 		if rapid.IntRange(0, 7).Draw(t, "fake") == 0 {
 			op.B = rapid.IntRange(1, 3).Draw(t, "fake-inputs")
+		} else {
+			op.Now = rapid.IntRange(0, 2).Draw(t, "submit-now") == 0
 		}
 	case "release":
 		op.N = rapid.IntRange(0, 7).Draw(t, "request")
@@ -723,6 +727,28 @@ func (wd *world) audit(where string) error {
 	if overErr == nil {
 		wd.w.ReleaseInputs([]types.Transaction{over}, nil)
 	}
+	// the same with useUnconfirmed: everything confirmed and every unconfirmed
+	// output that is not reserved, and not one hasting more
+	pre, err := wd.view(t0, t0)
+	if err != nil {
+		return err
+	}
+	var uprobe, uover types.Transaction
+	var uprobeErr, uoverErr error
+	uprobed := len(pre.snap.E) > 0 || len(wd.cm.V2PoolTransactions())+len(wd.cm.PoolTransactions()) > 0
+	uamount := pre.sumS.Add(pre.sumE)
+	if uprobed {
+		if !uamount.IsZero() {
+			_, uprobeErr = wd.w.FundTransaction(&uprobe, uamount, true)
+			if uprobeErr == nil {
+				wd.w.ReleaseInputs([]types.Transaction{uprobe}, nil)
+			}
+		}
+		_, uoverErr = wd.w.FundTransaction(&uover, uamount.Add(oneH), true)
+		if uoverErr == nil {
+			wd.w.ReleaseInputs([]types.Transaction{uover}, nil)
+		}
+	}
 	so2, _, err := wd.spendable()
 	if err != nil {
 		return fmt.Errorf("%s: %w", where, err)
@@ -777,8 +803,49 @@ func (wd *world) audit(where string) error {
 	} else if !errors.Is(overErr, wallet.ErrNotEnoughFunds) {
 		return fmt.Errorf("%s: FundTransaction(Σ SpendableOutputs + 1 H, false) failed with %v, want ErrNotEnoughFunds", where, overErr)
 	}
+	if uprobed {
+		wd.cs.Class("audit=useUnconfirmed-probe")
+		amt := v.sumS.Add(v.sumE)
+		if !amt.Equals(uamount) {
+			// the pool changed between the two readings: impossible in this
+			// single-threaded machine
+			return fmt.Errorf("INFRA: model changed inside an audit")
+		}
+		if !amt.IsZero() {
+			if uprobeErr != nil {
+				return fmt.Errorf("%s: FundTransaction(spendable + unconfirmed = %v, true) failed: %v", where, amt, uprobeErr)
+			}
+			ids := make([]scID, len(uprobe.SiacoinInputs))
+			for i, in := range uprobe.SiacoinInputs {
+				ids[i] = in.ParentID
+			}
+			sum, _, err := wd.checkSelected(v, ids, true, t0, t1, map[scID]bool{})
+			if err != nil {
+				return fmt.Errorf("%s: FundTransaction(spendable + unconfirmed = %v, true): %w", where, amt, err)
+			}
+			var change types.Currency
+			for _, o := range uprobe.SiacoinOutputs {
+				change = change.Add(o.Value)
+			}
+			if !sum.Equals(amt.Add(change)) {
+				return fmt.Errorf("%s: FundTransaction(%v, true): Σ inputs %v != amount + change (change %v)", where, amt, sum, change)
+			}
+		}
+		if uoverErr == nil {
+			ids := make([]scID, len(uover.SiacoinInputs))
+			for i, in := range uover.SiacoinInputs {
+				ids[i] = in.ParentID
+			}
+			if _, _, err := wd.checkSelected(v, ids, true, t0, t1, map[scID]bool{}); err != nil {
+				return fmt.Errorf("%s: FundTransaction(spendable + unconfirmed + 1 H = %v, true) succeeded: %w", where, amt.Add(oneH), err)
+			}
+			return fmt.Errorf("%s: FundTransaction(spendable + unconfirmed + 1 H = %v, true) succeeded with %d inputs", where, amt.Add(oneH), len(uover.SiacoinInputs))
+		} else if !errors.Is(uoverErr, wallet.ErrNotEnoughFunds) {
+			return fmt.Errorf("%s: FundTransaction(spendable + unconfirmed + 1 H, true) failed with %v, want ErrNotEnoughFunds", where, uoverErr)
+		}
+	}
 	if d := diffSets(so2, v.S, v.snap, wd, t0, t1); d != "" {
-		return fmt.Errorf("%s: after a released exact-amount request and a failed request SpendableOutputs changed: %s", where, d)
+		return fmt.Errorf("%s: after released exact-amount requests and failed requests SpendableOutputs changed: %s", where, d)
 	}
 	return nil
 }
@@ -1860,7 +1927,13 @@ func runC07(c C07Case, cs *kit.CaseStats) error {
 		case "pay":
 			err = wd.opPay(op)
 		case "fund":
+			nreq := len(wd.reqs)
 			err = wd.opFund(op, i)
+			if err == nil && op.Now && len(wd.reqs) == nreq+1 && !wd.reqs[nreq].noSubmit {
+				cs.Class("fund=submitted-at-once")
+				// the newest outstanding request is the last one in the list
+				err = wd.opSubmit(Op{K: "submit", N: len(wd.outstanding(true)) - 1, B: op.N}, i)
+			}
 		case "release":
 			err = wd.opRelease(op)
 		case "submit":
